@@ -187,7 +187,7 @@ def bnd_facts(c: Ctx, f: Func, entry: Facts | None = None):
     key = (f, entry is not None)
     if key not in cache:
         cfg = c.cfg(f)
-        cache[key] = (cfg, analyse(cfg, entry, contract_call_kills(c, f)))
+        cache[key] = (cfg, analyse(cfg, entry, contract_call_kills(c, f), c.bool_summary))
     return cache[key]
 
 
@@ -211,9 +211,39 @@ def _first_entry_facts(cfg: CFG, res: dict, for_node: Node) -> Facts | None:
 
 def _check_contract_sites(c: Ctx, r: RuleResult, contracts: dict[Func, list[tuple[str, str, int, str]]]) -> dict[Func, bool]:
     """Validate each contract at every call / dispatch site of the function.  -> function -> validated?"""
+    phase = c.cg.api_phase()
+    # a private helper that contains the dispatch loop (extract-method) inherits the contract if every call of it establishes it
+    for g in sorted(phase, key=lambda x: x.qual):
+        if g in contracts:
+            continue
+        for cs in c.cg.sites.get(g, []):
+            tg = [f for f in cs.callees if f in contracts]
+            if not tg or not cs.kind.startswith("dispatch:inline") or not cs.node.args or not isinstance(cs.node.args[0], ast.Name):
+                continue
+            stp = cs.node.args[0].id
+            if stp not in [a.arg for a in g.node.args.posonlyargs + g.node.args.args]:
+                continue
+            callers = [x for x in c.cg.callers.get(g, []) if not x.kind.startswith("dispatch:")]
+            good = bool(callers)
+            for x in callers:
+                arg = c.eff.arg_for_param(x, g, stp)
+                if arg is None:
+                    good = False
+                    break
+                gz = Facts()
+                for (a0, b0, k0, _) in contracts.get(x.caller, []):
+                    gz.add(a0, b0, k0)
+                xcfg, xres = bnd_facts(c, x.caller, gz if gz.d else None)
+                st_txt = U(arg)
+                for n in xcfg.owner(x.node):
+                    z = xres.get(n.id)
+                    if z is not None and not _entails_le(z, f"{st_txt}.pos", f"{st_txt}.posMax", -1):
+                        good = False
+            if good:
+                contracts[g] = [(f"{stp}.pos", f"{stp}.posMax", -1, f"derived: every call of {g.short} is made with pos < posMax")]
+            break
     ok: dict[Func, bool] = {f: True for f in contracts}
     seen_any: dict[Func, int] = {f: 0 for f in contracts}
-    phase = c.cg.api_phase()
     for g in sorted(phase, key=lambda x: x.qual):
         for cs in c.cg.sites.get(g, []):
             targets = [f for f in cs.callees if f in contracts]
@@ -279,7 +309,7 @@ def _check_contract_sites(c: Ctx, r: RuleResult, contracts: dict[Func, list[tupl
                 for f in targets:
                     ok[f] = False
     for f, n in seen_any.items():
-        if n == 0:
+        if n == 0 and not any("derived" in d[3] for d in contracts.get(f, [])):
             ok[f] = False
     return ok
 
